@@ -37,6 +37,11 @@ func (vc *VC) execBlock(st *State, stmts []ast.Stmt) flow {
 			break
 		}
 		f := vc.exec(cur, s)
+		if vc.abandonPath {
+			// the statement entered the concurrent phase (cut): this path is not verified further
+			vc.abandonPath = false
+			return flow{jumps: jumps}
+		}
 		jumps = append(jumps, f.jumps...)
 		cur = f.normal
 	}
@@ -149,14 +154,8 @@ func (vc *VC) exec(st *State, s ast.Stmt) flow {
 		return flow{normal: st}
 	case *ast.EmptyStmt:
 		return flow{normal: st}
-	case *ast.GoStmt:
-		vc.unsupportedf(x.Pos(), "go statement")
-		return flow{normal: st}
-	case *ast.SendStmt:
-		vc.unsupportedf(x.Pos(), "channel send")
-		return flow{normal: st}
-	case *ast.SelectStmt:
-		vc.unsupportedf(x.Pos(), "select")
+	case *ast.GoStmt, *ast.SendStmt, *ast.SelectStmt:
+		vc.concurrency(s.Pos(), fmt.Sprintf("%T", s))
 		return flow{normal: st}
 	}
 	vc.unsupportedf(s.Pos(), "statement %T", s)
@@ -1398,4 +1397,15 @@ func (vc *VC) noteBase(li *loopInfo, key string, base ast.Expr) {
 		}
 	}
 	li.heapUnknown[key] = true
+}
+
+
+// concurrency: called at constructs outside the sequential subset. With the cut option the current path is abandoned.
+func (vc *VC) concurrency(pos token.Pos, what string) {
+	if vc.contract != nil && vc.contract.Options["stop-at-concurrency"] != "" {
+		vc.noteAssumption(fmt.Sprintf("CUT in %s: paths that reach goroutines/channels (first at %s) are not verified", vc.fn.Key, vc.eng.pos(pos)))
+		vc.abandonPath = true
+		return
+	}
+	vc.unsupportedf(pos, "concurrency construct: %s", what)
 }
